@@ -265,7 +265,10 @@ class Parser:
       self.next(); self.expect("("); self.form("for")
       decl = False
       if self.peek()[1] in ("int", "integer"):
-        self.data_type(); decl = True
+        # `int` / `integer` are SIGNED 32-bit types unless declared `int unsigned` (LRM 6.11)
+        is_int = self.peek()[1] == "int"
+        self.data_type(); decl = "signed"
+        if is_int and self.toks[self.i - 1][1] == "unsigned": decl = "unsigned"
       var = self.ident(); self.expect("="); init = self.expr(); self.expect(";")
       cond = self.expr(); self.expect(";")
       sv = self.ident()
@@ -673,6 +676,16 @@ class Sim:
         w = const_eval(s[2]); ty = ("vec", w)
     return w
 
+  def is_signed(self, e, inst):
+    """expression signedness (LRM 11.8.1) for the forms the back ends emit: unsized decimal literals and `int` loop counters are
+    signed, sized literals / nets / variables / selects / comparisons are unsigned, an operator is signed iff all operands are"""
+    k = e[0]
+    if k == "num": return bool(e[3])
+    if k == "id": return (not e[2]) and e[1] in self.loopvars and getattr(self, "loop_signed", {}).get(e[1], False)
+    if k == "un": return e[1] in ("-", "+", "~") and self.is_signed(e[2], inst)
+    if k == "bin" and e[1] in ("+", "-", "*", "/", "%", "&", "|", "^"): return self.is_signed(e[2], inst) and self.is_signed(e[3], inst)
+    return False
+
   def ev_self(self, e, inst):
     return self.ev(e, inst, self.size(e, inst))
 
@@ -700,6 +713,10 @@ class Sim:
       if op in ("==", "!=", "<", "<=", ">", ">="):
         w = max(self.size(e[2], inst), self.size(e[3], inst))
         a, b = self.ev(e[2], inst, w), self.ev(e[3], inst, w)
+        if self.is_signed(e[2], inst) and self.is_signed(e[3], inst):
+          # both operands signed: a signed comparison (LRM 11.8.1); a single unsigned operand makes it unsigned
+          a = a - (1 << w) if a >> (w - 1) else a
+          b = b - (1 << w) if b >> (w - 1) else b
         return int({"==": a == b, "!=": a != b, "<": a < b, "<=": a <= b, ">": a > b, ">=": a >= b}[op])
       if op in ("&&", "||"):
         a, b = self.ev_self(e[2], inst) != 0, self.ev_self(e[3], inst) != 0
@@ -778,6 +795,8 @@ class Sim:
       _, var, init, cond, sv, step, body, decl = st
       islocal = True      # loop variables (also module-level `integer` ones) are process-local scratch
       saved = self.loopvars.get(var)
+      if not hasattr(self, "loop_signed"): self.loop_signed = {}
+      self.loop_signed[var] = (decl == "signed")
       if islocal:
         self.loopvars[var] = self.ev(init, inst, 32)
       else:
